@@ -337,6 +337,11 @@ func famCodec(dir string, seed int64, tier string) {
 		}
 		wEnc.add(fmt.Sprintf("EncCase %s %s %d", coqTokens(ts), coqRLE(o0.bytes), n), desc, len(ts) > 0)
 		valids = append(valids, validEnc{ts, o0.bytes})
+		// the encoder writes as it goes, and a decoder may be set up on a buffer that is still being written
+		apiIncrementalEncode(repEnc, ts, o0.bytes, desc)
+		if len(o0.bytes) < 200000 {
+			apiInterleavedCodec(repDec, ts, desc)
+		}
 
 		// decode with every reader flavour: token-exact round trip, exact consumption
 		var first decObs
@@ -657,6 +662,30 @@ func famCodec(dir string, seed int64, tier string) {
 	sb.MaxDecodeStringLength = 4 * 1024 * 1024 * 1024
 
 	// limit boundary: length == limit accepted, limit+1 rejected
+	// limits at and above 2^63 ("no limit"): every payload is below them
+	for _, lim := range []uint64{1<<63 - 1, 1 << 63, 1<<63 + 1, math.MaxUint64} {
+		for _, k := range []sb.Kind{sb.KindString, sb.KindBytes, sb.KindTypeName, sb.KindLiteral, sb.KindRef} {
+			for _, n := range []int{0, 1, 127, 128, 300} {
+				var t sb.Token
+				if k == sb.KindBytes || k == sb.KindRef {
+					t = sb.Token{Kind: k, Value: payload(r, n)}
+				} else {
+					t = sb.Token{Kind: k, Value: string(payload(r, n))}
+				}
+				enc := runEncode([]sb.Token{t, tokI(1)}, 0, 0).bytes
+				sb.MaxDecodeStringLength = lim
+				desc := fmt.Sprintf("limit=%d len=%d kind=%d", lim, n, k)
+				for _, cmp := range []bool{false, true} {
+					o := decodeAllFlavours(repDec, enc, cmp, false, r, desc)
+					if o.err != nil {
+						repDec.violate("C04", "limit-boundary", fmt.Sprintf("a payload of %d bytes is rejected under the limit %d: %v", n, lim, o.err), desc)
+					}
+					wDec.add(decCaseTerm(cmp, lim, false, enc, o), desc, true)
+				}
+				sb.MaxDecodeStringLength = 4 * 1024 * 1024 * 1024
+			}
+		}
+	}
 	for _, lim := range []uint64{0, 5, 127, 128, 300} {
 		for _, k := range []sb.Kind{sb.KindString, sb.KindBytes, sb.KindTypeName, sb.KindLiteral, sb.KindRef} {
 			for _, d := range []int{0, 1} {
